@@ -160,6 +160,9 @@ func runUnits(cfg *Config, ld *Loaded, db *SpecDB, keys []string) []*UnitResult 
 					}
 				}
 			}
+			if res.Spec != nil && len(res.Spec.Wakes) > 0 && !u.wakesHit && len(u.errs) == 0 && u.houdini == nil {
+				u.errs = append(u.errs, "spec: 'wakes' clause but the function has no blocking select")
+			}
 			for c, msg := range u.droppedInv {
 				fmt.Printf("NOTE: %s: helper invariant of loop %d no longer applies to the code and was dropped (%s): %s\n", k, c.Loop, msg, trunc(c.Text, 120))
 			}
